@@ -38,6 +38,72 @@ type typedCtx struct {
 }
 
 var typedTransforms = map[string]func(tc *typedCtx){
+	// renamelocals: every local variable, parameter, receiver and named result x becomes xZz (consistently: all
+	// identifiers that resolve to the same object). Exported API is untouched: parameter names are not part of it.
+	"renamelocals": func(tc *typedCtx) {
+		local := func(obj types.Object) bool {
+			v, ok := obj.(*types.Var)
+			if !ok || v.IsField() || v.Pkg() != tc.pkg || v.Name() == "_" || v.Name() == "" {
+				return false
+			}
+			return v.Parent() != nil && v.Parent() != tc.pkg.Scope() && v.Parent() != types.Universe
+		}
+		renamed := map[types.Object]bool{}
+		var idents []*ast.Ident
+		// the symbolic variable of a type switch has no object of its own: one implicit object per clause
+		tsNames := map[*ast.Ident]bool{}
+		ast.Inspect(tc.file, func(n ast.Node) bool {
+			ts, ok := n.(*ast.TypeSwitchStmt)
+			if !ok {
+				return true
+			}
+			if as, isAs := ts.Assign.(*ast.AssignStmt); isAs && len(as.Lhs) == 1 {
+				if id, isId := as.Lhs[0].(*ast.Ident); isId && id.Name != "_" {
+					used := false
+					for _, cl := range ts.Body.List {
+						if obj := tc.info.Implicits[cl]; obj != nil {
+							renamed[obj] = true
+							used = true
+						}
+					}
+					if used {
+						tsNames[id] = true
+					}
+				}
+			}
+			return true
+		})
+		ast.Inspect(tc.file, func(n ast.Node) bool {
+			id, ok := n.(*ast.Ident)
+			if !ok {
+				return true
+			}
+			if tsNames[id] {
+				idents = append(idents, id)
+				return true
+			}
+			obj := tc.info.Defs[id]
+			if obj == nil {
+				obj = tc.info.Uses[id]
+			}
+			if obj == nil {
+				return true
+			}
+			if renamed[obj] || local(obj) {
+				if !renamed[obj] {
+					renamed[obj] = true
+					want()
+				}
+				idents = append(idents, id)
+			}
+			return true
+		})
+		// struct literal keys and selector fields are fields, not variables: never in idents. Embedded-field
+		// promotion through a renamed variable keeps working (the field names do not change).
+		for _, id := range idents {
+			id.Name = id.Name + "Zz"
+		}
+	},
 	"rangeidx": func(tc *typedCtx) {
 		rewriteStmtLists(tc.file, func(list []ast.Stmt, k int, elseIf map[*ast.IfStmt]bool) []ast.Stmt {
 			rs, ok := list[k].(*ast.RangeStmt)
